@@ -1,17 +1,53 @@
 TECHNIQUE = ('bounded symbolic execution of LLVM IR lowered to C: CBMC/SAT (cadical), sequentialised step machine '
-             '(engine cbmc-seq: symbolic scheduler over all atomic operations / futex calls), ghost invocation counters + '
-             'allocation ledger')
-ASSUMPTIONS = []
-OUTSIDE = ''
+             '(engine cbmc-seq: symbolic scheduler over all atomic operations / futex calls, exact futex model), ghost '
+             'invocation counters + small-buffer allocation ledger + CBMC pointer / leak checks on the shared state')
+ASSUMPTIONS = [
+    'small-buffer pool contract (stub harness/C18/sba_stub.h replaces small_buffer_allocator.cpp; the real pool is property C41): '
+    'allocSmallBufferImpl(ordinal) returns a fresh malloc block of 4<<ordinal bytes, deallocSmallBufferImpl frees it',
+    'model schedulable (template argument of the real Future constructor): schedule(f, ForceQueuingTag) stores the OnceFunction '
+    'in a typed slot, schedule(f) stores it too (instances with VF_INLINE=1: or runs it at once on the caller); a model worker '
+    'thread runs the stored function once, at an arbitrary time',
+    'the stored type-erased closure `[this]{ run(); }` (FutureImplBase::makeOnceFunction) is resolved by the harness to a direct '
+    'call of the real FutureImplBase::run() on the shared state, so that the engine can interleave inside run(); '
+    'OnceFunction::operator() itself (function pointer dispatch) is property C39',
+    'virtual calls (runFunc, dealloc, destructors) are dispatched exactly over the vtable slot entries present in the module '
+    '(spec key devirt); the functor body and dealloc() run without preemption (they are reached through a virtual call)',
+    'each thread uses its own Future copy (documented: no call on a Future object that another thread assigns or destroys)',
+    'sequential consistency for all atomics',
+]
+OUTSIDE = ('more than 3 (quick) / 4 threads, more than one or two operations per getter; schedules needing more execution '
+           'segments per thread than the stated scheduler rounds; spin/retry loops iterating more than once per segment (cut); '
+           'ThreadPool / TaskSet / ConcurrentTaskSet / NewThreadInvoker as schedulables (their queues are properties C01-C11; the '
+           'Future code only calls schedule()/schedulePlaced() on them) and the taskSetCounter_ path; functors that throw (exception '
+           'lowering was not attempted for this code in the time available); result types other than int32_t (void / int& variants are '
+           'written, VF_RESULT=1/2, but not measured); weak-memory reorderings (e.g. incRefCount uses acquire, decRef release: '
+           'not stress-tested); wait_for / wait_until with a positive timeout; the macOS / Windows CompletionEventImpl variants')
+
+RED = ['--no-standard-checks', '--pointer-check', '--div-by-zero-check']
 
 def I(name, defs, steps, nthreads, bounds, **kw):
     d = {'name': name, 'src': 'future.cpp', 'engine': 'cbmc-seq', 'steps': steps, 'spin_loops': True, 'defs': defs,
-         'unwind': 3, 'unwindset': {}, 'nthreads': nthreads, 'timeout': 400, 'leak_check': True,
-         'shims': ['moodycamel'], 'seq_unroll': True, 'devirt': True, 'tiers': ['quick', 'thorough'], 'bounds': bounds}
+         'unwind': 2, 'nthreads': nthreads, 'timeout': 1700, 'leak_check': True,
+         'shims': ['moodycamel'], 'seq_unroll': True, 'devirt': True, 'tiers': ['quick', 'thorough'],
+         'bounds': bounds + '; %d scheduler rounds (each thread <= %d execution segments, preemption before every atomic operation / '
+                            'futex call); CAS retry / wait loops <= 1 iteration per segment; launch policies symbolic '
+                            '(async bit, deferred bit); result value symbolic' % (steps, steps)}
     d.update(kw)
     return d
 
+G1 = ('Future<int32_t> over the model schedulable; worker thread runs the queued run closure at an arbitrary time; getter thread: '
+      'get() on its own copy then drops the copy; main drops its reference before or after the join (symbolic), then get() + '
+      'address comparison if it still holds one')
 INSTANCES = [
-    I('int_1g', {'VF_RESULT': 0, 'VF_GETTERS': 1}, 3, 3, 'x', unwind=2),
-    I('int_2g', {'VF_RESULT': 0, 'VF_OPS_B': 4}, 3, 4, 'x', unwind=2),
+    I('int_1g', {'VF_RESULT': 0, 'VF_GETTERS': 1}, 2, 3, G1,
+      thorough={'steps': 3, 'checks': RED}),
+    # two getters: A get(); B one of wait_for(0) / is_ready() / wait_until(past) / wait(), then optionally get()
+    I('int_2g', {'VF_RESULT': 0, 'VF_OPS_B': 0x1e}, 2, 4,
+      G1 + '; second getter: wait() | wait_for(0) | is_ready() | wait_until(past) (symbolic), then optionally get()',
+      tiers=['experimental'], checks=RED),
+    I('int_1g_inline', {'VF_RESULT': 0, 'VF_GETTERS': 1, 'VF_INLINE': 1, 'VF_CHECK_CLOSURE': 1}, 2, 3,
+      G1 + '; schedule() without the forcing tag may run the closure at once on the caller (symbolic); the closure stored in the '
+           'slot is compared with the shared state', tiers=['experimental'], checks=RED),
+    I('void_1g', {'VF_RESULT': 1, 'VF_GETTERS': 1}, 2, 3, G1.replace('int32_t', 'void'), tiers=['experimental'], checks=RED),
+    I('ref_1g', {'VF_RESULT': 2, 'VF_GETTERS': 1}, 2, 3, G1.replace('int32_t', 'int32_t&'), tiers=['experimental'], checks=RED),
 ]
